@@ -99,3 +99,26 @@ def backward_slice(f, start_local, stop=None):
                 add_call(t)
             stack.extend(x for x in derived.get(r, []))
     return calls, consts, seen
+
+
+def unit_functions(cr, root, module_prefixes, depth=2):
+    """the root function together with its closures and the local (same-module, non-test) helpers it calls, transitively to `depth`:
+    the unit over which a rule anchored at `root` looks, so that extracting lines into a private helper or a closure does not hide them"""
+    out, work = [], [(root, 0)]
+    seen = set()
+    while work:
+        k, d = work.pop()
+        if k in seen or k not in cr.fns:
+            continue
+        seen.add(k)
+        out.append(k)
+        for kk in cr.fns:
+            if kk.startswith(k + "::{closure") and kk not in seen:
+                work.append((kk, d))
+        if d >= depth:
+            continue
+        for bi, t in M.iter_calls(cr.fns[k]):
+            c = t["fn"].get("key", "")
+            if t["fn"].get("local") and c in cr.fns and c.startswith(tuple(module_prefixes)) and not cr.fns[c].get("file", "").endswith("_tests.rs"):
+                work.append((c, d + 1))
+    return out
